@@ -8,6 +8,7 @@ RULE = ("micro APIs over a grid: (response-type form) x (metadata-type form) wit
         "google.protobuf.Empty (imported by the service's file or only by another file), nested (qualified, package-relative, and "
         "package-relative while a top-level package of the same name exists, package-relative with the enclosing message in "
         "another file, imported or not), a type alone in a file of its own that nobody imports and no other method uses, flattened request fields named like the api_core modules (operation, operation_async), "
+        "service-YAML http rules for the operations service with additional bindings (operation names matching each binding in turn), "
         "selective generation with generate_omitted_as_internal (every LRO rpc internal; one internal and one public), "
         "another package, missing, unknown (relative, qualified, leading dot), plus un-annotated Operation methods, three packages. "
         "Schema level: every sampled grid cell is decided by the real API.build and by the model (T2). End to end: a slice of the "
@@ -152,15 +153,72 @@ def service_yaml(cell, pkg):
         return None
     sy = {"type": "google.api.Service", "config_version": 3, "name": "jobs.example.com", "apis": [{"name": pkg + ".Jobs"}]}
     if cell.get("ops_http"):
-        sy["http"] = {"rules": [
-            {"selector": "google.longrunning.Operations.GetOperation", "get": "/%s/{name=projects/*/operations/*}" % OPS_PREFIX},
-            {"selector": "google.longrunning.Operations.CancelOperation", "post": "/%s/{name=projects/*/operations/*}:cancel" % OPS_PREFIX,
-             "body": "*"}]}
+        get = {"selector": "google.longrunning.Operations.GetOperation", "get": "/%s/{name=projects/*/operations/*}" % OPS_PREFIX}
+        cancel = {"selector": "google.longrunning.Operations.CancelOperation",
+                  "post": "/%s/{name=projects/*/operations/*}:cancel" % OPS_PREFIX, "body": "*"}
+        if cell["ops_http"] == "multi":
+            # several bindings per selector: the operation may live under a project, an organization or a folder
+            get["additional_bindings"] = [{"get": "/%s/{name=%s/*/operations/*}" % (OPS_PREFIX, c)} for c in ("organizations", "folders")]
+            cancel["additional_bindings"] = [{"post": "/%s/{name=organizations/*/operations/*}:cancel" % OPS_PREFIX, "body": "*"}]
+        sy["http"] = {"rules": [get, cancel]}
     if cell.get("internal"):
         public = ["Peek"] + (["Restart"] if cell["internal"] == "some" else [])
         sy["publishing"] = {"library_settings": [{"version": pkg, "python_settings": {"common": {"selective_gapic_generation": {
             "methods": [f"{pkg}.Jobs.{m}" for m in public], "generate_omitted_as_internal": True}}}}]}
     return sy
+
+
+MULTI_OP_NAMES = ["projects/p/operations/op-1", "organizations/o/operations/op-2", "folders/f/operations/op-3"]
+VERBS = ("get", "put", "post", "delete", "patch")
+
+
+def http_rules_term(sy):
+    """The http.rules of the option file as the model's [http_rule] term (primary binding, then the additional ones)."""
+    out = []
+    for rule in ((sy or {}).get("http") or {}).get("rules", []):
+        bs = []
+        for b in [rule] + list(rule.get("additional_bindings", [])):
+            verb = next((v for v in VERBS if v in b), None)
+            bs.append("None" if verb is None else f"(Some (mkB {coq.s(verb)} {coq.s(b[verb])} {coq.s(b.get('body', ''))}))")
+        out.append(f"(mkHR {coq.s(rule['selector'])} {coq.lst(bs)})")
+    return coq.lst(out)
+
+
+def extract_rest_http_options(src):
+    """The http_options dict literal of the REST transport's operations_client (fail-closed on shape and on duplicate keys)."""
+    tree = ast.parse(src)
+    cls = [c for c in tree.body if isinstance(c, ast.ClassDef) and c.name.endswith("RestTransport") and not c.name.startswith("_")]
+    if len(cls) != 1:
+        raise ValueError(f"{len(cls)} classes *RestTransport")
+    prop = next((n for n in cls[0].body if isinstance(n, ast.FunctionDef) and n.name == "operations_client"), None)
+    if prop is None:
+        return None
+    asg = [n for n in ast.walk(prop) if isinstance(n, ast.AnnAssign) and ast.unparse(n.target) == "http_options"]
+    if len(asg) != 1 or not isinstance(asg[0].value, ast.Dict):
+        raise ValueError("http_options is not assigned a dict literal")
+    used = [n for n in ast.walk(prop) if isinstance(n, ast.keyword) and n.arg == "http_options"]
+    if len(used) != 1 or ast.unparse(used[0].value) != "http_options":
+        raise ValueError("http_options is not what the operations transport is given")
+    out = []
+    for k, v in zip(asg[0].value.keys, asg[0].value.values):
+        if not (isinstance(k, ast.Constant) and isinstance(k.value, str)) or not isinstance(v, ast.List):
+            raise ValueError(f"unexpected entry {ast.unparse(k) if k else k}")
+        if k.value in [x for x, _ in out]:
+            raise ValueError(f"duplicate key {k.value!r}: the later entry silently replaces the earlier one")
+        bs = []
+        for e in v.elts:
+            if not isinstance(e, ast.Dict):
+                raise ValueError("binding is not a dict literal")
+            dd = {}
+            for kk, vv in zip(e.keys, e.values):
+                if not (isinstance(kk, ast.Constant) and isinstance(vv, ast.Constant) and isinstance(vv.value, str)):
+                    raise ValueError("binding entry is not a string constant")
+                dd[kk.value] = vv.value
+            if set(dd) - {"method", "uri", "body"} or not {"method", "uri"} <= set(dd):
+                raise ValueError(f"binding keys {sorted(dd)}")
+            bs.append(dd)
+        out.append((k.value, bs))
+    return out
 
 
 def generate(cell, req, pkg, tag):
@@ -474,7 +532,7 @@ def snapshots(d, resp_fqn, meta_fqn, h):
     ops, view = [], []
 
     def snap(done, i, final=None):
-        o = operations_pb2.Operation(name=OP_NAME, done=done)
+        o = operations_pb2.Operation(name=h.get("op_name", OP_NAME), done=done)
         v = {"done": done, "meta": None, "result": None}
         if not h.get("no_metadata"):
             mm = sample_message(d, meta_fqn, i)
@@ -752,6 +810,16 @@ def e2e_case(args):
             continue
         res["t1"].append((f"{fname}: operations_client present = {present} [{json.dumps(cell, sort_keys=True)}]",
                           f"Bool.eqb (has_operations_client {sm_terms}) {coq.b(present)}"))
+    try:
+        ho = extract_rest_http_options(files[base + "transports/rest.py"])
+        if ho is not None:
+            obs = coq.lst(f"({coq.s(k)}, " + coq.lst(f"(mkPB {coq.s(b['method'])} {coq.s(b['uri'])} {coq.opt(b.get('body'))})" for b in bs) + ")"
+                          for k, bs in ho)
+            res["t1"].append((f"transports/rest.py: http_options of operations_client [{json.dumps(cell, sort_keys=True)}]",
+                              f"http_options_eqb (ops_http_options {http_rules_term(service_yaml(cell, pkg))}) {obs}"))
+    except Exception as e:  # noqa
+        res["oblige"].append(("T1 reading http_options of the REST operations_client", False,
+                              f"{json.dumps(cell, sort_keys=True)}: {e!r}"[:400]))
     for fname, suffix, is_async in (("transports/grpc.py", "GrpcTransport", False), ("transports/grpc_asyncio.py", "GrpcAsyncIOTransport", True)):
         try:
             oc = extract_ops_client(files[base + fname], suffix)
@@ -802,6 +870,9 @@ def e2e_case(args):
                 metas.append({"transport": tr, "raw": True})
         else:
             hs = history_specs(r, tier_all)
+            for hi, h in enumerate(hs):
+                # with several bindings per selector the operation names match each binding in turn
+                h["op_name"] = MULTI_OP_NAMES[hi % 3] if cell.get("ops_http") == "multi" else OP_NAME
             for cn, tr in transports:
                 for h in hs:
                     # the server speaks the API as declared: it packs the annotated types, whatever the emitted code expects
@@ -864,7 +935,7 @@ def e2e_case(args):
             if tr == "rest":
                 polls = [c for c in o["http_calls"][1:]]
                 prefix = OPS_PREFIX if cell.get("ops_http") else pkg.split(".")[-1]
-                ok_paths = all(c["verb"] == "GET" and c["path"] == f"/{prefix}/{OP_NAME}" for c in polls)
+                ok_paths = all(c["verb"] == "GET" and c["path"] == f"/{prefix}/{h['op_name']}" for c in polls)
                 first_ok = o["http_calls"] and o["http_calls"][0]["path"] == f"/v1/jobs/1:{meta['rpc'].lower()}"
             else:
                 polls = o["grpc_calls"][1:]
@@ -890,8 +961,8 @@ def e2e_case(args):
             if tr != "rest":
                 for c in polls:
                     rqn = operations_pb2.GetOperationRequest.FromString(base64.b64decode(c["requests"][0])) if c["requests"] else None
-                    if rqn is None or rqn.name != OP_NAME:
-                        bad(f"{tag} [{h['id']}]: GetOperation asked for {rqn and rqn.name!r}, expected {OP_NAME!r}", xcase)
+                    if rqn is None or rqn.name != h["op_name"]:
+                        bad(f"{tag} [{h['id']}]: GetOperation asked for {rqn and rqn.name!r}, expected {h['op_name']!r}", xcase)
                         break
             final = meta["ops"][-1]
             if h["final"] == "response":
@@ -957,6 +1028,7 @@ def e2e_cells(ctx, n):
         {"pkg_index": 2, "resp": "rel_notimported", "meta": "rel_same", "annotated": True, "order": "svc-first", "flat": "operation"},
         {"pkg_index": 1, "resp": "rel_alone", "meta": "rel_same", "annotated": True, "order": "types-first"},
         {"pkg_index": 2, "resp": "fq_same", "meta": "rel_imported", "annotated": True, "order": "svc-first", "internal": "some", "raw_sibling": True},
+        {"pkg_index": 1, "resp": "rel_imported", "meta": "rel_same", "annotated": True, "order": "svc-first", "ops_http": "multi"},
         {"pkg_index": 0, "resp": "empty", "meta": "rel_nested_imported", "annotated": True, "order": "types-first", "flat": "operation_async"},
     ]
     i = 0
@@ -966,7 +1038,7 @@ def e2e_cells(ctx, n):
         pool = VALID * 3 + MISSING + UNKNOWN
         c = {"pkg_index": r.randrange(len(PACKAGES)), "resp": r.choice(pool), "meta": r.choice(pool),
              "annotated": r.random() < 0.88, "order": r.choice(["types-first", "svc-first"]), "raw_sibling": r.random() < 0.25,
-             "types_name": r.choice(["types", "types", "operation", "operation_async"]), "ops_http": r.random() < 0.3}
+             "types_name": r.choice(["types", "types", "operation", "operation_async"]), "ops_http": r.choice([False, False, True, "multi"])}
         if r.random() < 0.3:
             c["flat"] = r.choice(["operation", "operation_async", "both"])
         if r.random() < 0.3:
@@ -1025,7 +1097,7 @@ def run(ctx):
     t = threading.Thread(target=schema)
     t.start()
     try:
-        run_e2e(ctx, e2e_cells(ctx, ctx.n(26, 110)), tier_all=not ctx.quick())
+        run_e2e(ctx, e2e_cells(ctx, ctx.n(28, 110)), tier_all=not ctx.quick())
     finally:
         t.join()
     if errs:
